@@ -94,12 +94,22 @@ NSPAIR = {'saml': 'urn:oasis:names:tc:SAML:2.0:assertion', 'samlp': 'urn:oasis:n
           'xs': 'http://www.w3.org/2001/XMLSchema', 'vf': FOREIGN}
 
 
-def alternative_serialisers(obj, s, clsname):
+def _foreign_last(t):
+    """shape with, at every level, the children of the foreign / no namespace moved behind the others (relative orders kept): no serialiser keeps the position of
+    unknown children among the known ones, so routes are compared up to that"""
+    kids = [_foreign_last(c) for c in t[3]]
+    f = [c for c in kids if c[0].startswith('{%s}' % FOREIGN) or not c[0].startswith('{')]
+    k = [c for c in kids if c not in f]
+    return (t[0], t[1], t[2], tuple(k + f))
+
+
+def alternative_serialisers(obj, s, clsname, foreign=False):
     """the other public routes from an object to XML must describe the same element as to_string(): conversion into extension content
     (element_to_extension_element, used for SOAP bodies, Extensions and encrypted assertions), to_string(nspair) and to_string_force_namespace(nspair)"""
     from xml.etree import ElementTree as ET
     from saml2_tophat import element_to_extension_element
-    base = _et_shape(ET.fromstring(s))
+    norm = _foreign_last if foreign else (lambda t: t)
+    base = norm(_et_shape(ET.fromstring(s)))
     routes = [('element_to_extension_element', lambda: element_to_extension_element(obj).to_string()),
               ('to_string(nspair)', lambda: obj.to_string(dict(NSPAIR))),
               ('to_string_force_namespace', lambda: obj.to_string_force_namespace(dict(NSPAIR))),
@@ -111,7 +121,7 @@ def alternative_serialisers(obj, s, clsname):
         except Exception as e:
             raise Violation('alternative-serialiser-raises', '%s: %s raised %r' % (clsname, name, e), detail={'route': name})
         try:
-            shape = _et_shape(ET.fromstring(alt))
+            shape = norm(_et_shape(ET.fromstring(alt)))
         except ET.ParseError as e:
             raise Violation('alternative-serialisation-not-well-formed', '%s: %s produced text that does not parse (%s): %r' % (clsname, name, e, alt[:300]), detail={'route': name})
         if shape != base:
@@ -242,6 +252,7 @@ def foreign_content(spec, s, inject):
     f = ET.SubElement(target, '{%s}child' % FOREIGN)
     f.text = 'foreign <text> & more'
     f.set('k', 'v')
+    f.set('{%s}level' % FOREIGN, '3')       # a namespace-qualified attribute on foreign content
     inner = ET.SubElement(f, '{%s}inner' % FOREIGN)
     inner.text = u'deep \xe9'
     ET.SubElement(ET.SubElement(inner, '{%s}deeper' % FOREIGN), 'deepest').set('a', 'b')
@@ -263,6 +274,8 @@ def foreign_content(spec, s, inject):
         out = obj.to_string()
     except Exception as e:
         raise Violation('foreign-raises', '%s: document with foreign content under %s raised %r' % (spec['cls'], tspec['cls'], e))
+    # the other serialisers on the instance that carries the foreign content (and the instance afterwards)
+    alternative_serialisers(obj, out, spec['cls'], foreign=True)
     root2 = ET.fromstring(out)
     # locate the same element again by walking the same index path
     path = _index_path(root, target)
